@@ -279,6 +279,8 @@ def r3_attribution(ctx):
                 ctx.check(ok, ar.qual, "suffix = run_number + const (injective)" if ok else f"the file suffix `{norm(a_)[:50]}` is not an injective function of the run index", where=ar, node=getattr(c_, "_src", ar.node))
             else:
                 n_auto += 1
+                none_known = q_.holds("run_number is None") is True or q_.holds("run_number is not None") is False
+                ctx.check(none_known, ar.qual + "#given-run-number", "the automatic number is used only when no run number is given" if none_known else f"the automatic number is used on the path {q_.cond_texts()[:3]} although a run number may be given there (a run index tested by truthiness: run 0 gets the next free number and collides with another run's file)", where=ar, node=getattr(c_, "_src", ar.node))
                 ok, why = _largest_number_plus_one(a_)
                 ctx.check(ok, ar.qual + "#next-free-number", f"automatic numbering: {why}" if ok else f"automatic numbering does not continue after the largest number in use ({why}): an existing file's number is handed out again", where=ar, node=getattr(c_, "_src", ar.node))
     if not n_run:
